@@ -216,6 +216,23 @@ PLANS = {
         "assumptions": ["the harness' infix renderer parenthesises by the documented precedence table (the same rule MCInfix checks on the model)",
                         "TLC, Json module, harness recording"],
     },
+    "C13": {
+        "mc": {"quick": [{"module": "MCDump", "cfg": "cfg/MCDump.quick.cfg"}],
+               "thorough": [{"module": "MCDump", "cfg": "cfg/MCDump.thorough.cfg", "timeout": 3400}]},
+        "drive": {"quick": [{"args": ["dump", "-exh", "2", "-n", "3000", "-depth", "5", "-seed", "{seed}"]}],
+                  "thorough": [{"args": ["dump", "-exh", "3", "-n", "60000", "-depth", "6", "-seed", "{seed}"]}]},
+        "judge": {"module": "JudgeDump", "cfg": "JudgeDump.cfg"},
+        "replay_args": ["dump", "-exh", "-1", "-n", "0"],
+        "engine": "frontend",
+        "rule": "one case = (expression whose string / list / int literals have contents over every class of character the lexer "
+                "can put inside a literal -- every content up to the exhaustive length at two nesting depths, random contents "
+                "in random trees; option subset; events off / ReportEvent / Debug); judged on programs not folded to a bare "
+                "scalar: Dump compiles under the same names (optimizations off), same results on every binding incl. bindings "
+                "of s to the literal contents, Dump of the recompiled program = the text, Dump independent of event mode; "
+                "non-trivial = a literal contains a backslash, line break, tab, non-ASCII space or control character",
+        "sample": lambda o: {"src": o["src"], "dump": o.get("d1text"), "recompiled_dump": o.get("d2text"), "mask": o["m"], "events": o["ev"]},
+        "assumptions": ["TLC, Json module, harness recording; character table of harness/chars.go"],
+    },
 }
 
 ENGINES = [
@@ -228,6 +245,6 @@ ENGINES.append({"name": "capacity", "path": "spec/Capacity.tla, MCCap.tla, Judge
                 "serves_properties": ["C09"],
                 "kind_free_text": "scaled-down limits model-checked; real limits judged by closed forms"})
 ENGINES.append({"name": "frontend", "path": "spec/Lexer.tla, Formatter.tla, Parser.tla, MCLayout.tla, MCParse.tla, JudgeLayout.tla, JudgeTotal.tla + harness/fam_layout.go, fam_total.go",
-                "serves_properties": ["C06", "C14", "C15"],
+                "serves_properties": ["C06", "C13", "C14", "C15"],
                 "kind_free_text": "lexer and formatter as character-level machines over model characters; exhaustive short texts; trace validation of the real lexer/formatter"})
 NOT_APPLICABLE = {}
